@@ -233,6 +233,8 @@ func gen(c *hx.Ctx) {
 		emitSlice(c, "int", kk, n)
 		c.Count("killer_sizes")
 	}
+	// heapSort fallback entered on ranges of every length 13..64 with a designed content (heapfb.go)
+	genHeapFallback(c)
 	// 4. random inputs of moderate size with few distinct keys (partition, equal-key branch, protect loop)
 	R := c.Budget(4000, 150000)
 	for i := 0; i < R; i++ {
